@@ -282,6 +282,54 @@ func runPackOnce(c *PackCase) ([]byte, error) {
 	return b, rerr
 }
 
+// pkReuseProbe: one options value used for two archives, its pattern and include lists edited in place in
+// between (a caller that keeps an options struct around and tweaks it). The second archive must be what a fresh
+// options value with the same lists gives — `want`, the archive the job has just produced.
+func pkReuseProbe(c *PackCase, want []byte) string {
+	if c.Op == "tar-chroot" {
+		return ""
+	}
+	o := c.tarOptions()
+	if len(o.ExcludePatterns) == 0 && len(o.IncludeFiles) == 0 {
+		return ""
+	}
+	origEx := append([]string{}, o.ExcludePatterns...)
+	origIn := append([]string{}, o.IncludeFiles...)
+	for i := range o.ExcludePatterns {
+		o.ExcludePatterns[i] = "zz-no-such-name"
+	}
+	for i := range o.IncludeFiles {
+		o.IncludeFiles[i] = "."
+	}
+	if rc, err := archive.TarWithOptions(c.Src, o); err == nil {
+		_, _ = io.Copy(io.Discard, rc)
+		rc.Close()
+	}
+	copy(o.ExcludePatterns, origEx)
+	copy(o.IncludeFiles, origIn)
+	run := func(o *archive.TarOptions) ([]byte, error) {
+		rc, err := archive.TarWithOptions(c.Src, o)
+		if err != nil {
+			return nil, err
+		}
+		b, rerr := io.ReadAll(rc)
+		rc.Close()
+		return b, rerr
+	}
+	b, err := run(o)
+	if err != nil {
+		return "second use of one options value (lists edited in place and restored) failed: " + err.Error()
+	}
+	if !bytes.Equal(b, want) {
+		return "second use of one options value (pattern/include lists edited in place, then restored): the archive differs from the one a fresh options value gives: " + pkDescribeDiff(want, b)
+	}
+	o2 := *o
+	if b, err = run(&o2); err == nil && !bytes.Equal(b, want) {
+		return "a struct copy of a used options value gives a different archive: " + pkDescribeDiff(want, b)
+	}
+	return ""
+}
+
 func runPackJob(j *Job, res *JobResult) {
 	var c PackCase
 	if err := json.Unmarshal([]byte(j.Args[0]), &c); err != nil {
@@ -337,6 +385,7 @@ func runPackJob(j *Job, res *JobResult) {
 		res.Out, res.Err = "badstream", perr.Error()
 		return
 	}
+	res.Note = pkReuseProbe(&c, b)
 	res.Out = "ok"
 	res.Extra = renderEnts(es)
 	res.Archive64 = b
